@@ -1,6 +1,7 @@
 CONSTANTS
   AsIs_D10 = TRUE
   Mut_NilFailedEvent = FALSE
+  Mut_NegotiateLeaksLock = FALSE
 SPECIFICATION Spec
 INVARIANTS TypeOK NoPanic Outcome Reported AllPrintable
 PROPERTY Terminates
